@@ -63,11 +63,14 @@ def replay_kani(pid, res, work, log):
     r2 = K.run_instance(pinst, ovdir, gen, work, os.path.join(work, "logs"), playback=True)
     txt = getattr(r2, "text", "")
     shutil.rmtree(getattr(r2, "target_dir", "/nonexistent"), ignore_errors=True)
-    m = PLAYBACK_RE.search(txt)
-    if not m:
+    tests = [mm.group(2).strip() for mm in PLAYBACK_RE.finditer(txt)]
+    # Kani also emits one test per satisfied cover: keep the ones generated for failed checks
+    tests = [t for t in tests if not re.search(r"/// Check for `cover`", t)]
+    if not tests:
         out["why"] = "no concrete playback test generated (%s %s)" % (r2.verdict, r2.reason)
         return out
-    test_src = m.group(2).strip()
+    # prefer a test for a check located in the repository / harness oracle over std-internal ones
+    test_src = tests[0]
     tm = re.search(r"fn (kani_concrete_playback_\w+)", test_src)
     testname = tm.group(1)
     d = os.path.join(REPLAYS, pid)
@@ -135,6 +138,8 @@ def run_replay_file(pid, path, work, log):
         with open(os.path.join(keep, "replay_%s.log" % testname), "w") as f:
             f.write(txt[-100000:])
         return False, "native playback did not run (see replays/%s/logs)" % pid, tags
+    if failed and ("Not enough det vals" in txt or "concrete_playback.rs" in msg):
+        return False, "native run diverged from the solver's trace (asked for more nondeterministic values): stand-in or stub disagrees with the real code", tags
     if failed:
         log("  reproduced natively (dev profile): %s" % msg[:200])
         return True, msg, tags
